@@ -11,6 +11,7 @@ package openflow13
 import (
 	"encoding/binary"
 	"errors"
+	"fmt"
 	"net"
 
 	"github.com/contiv/libOpenflow/common"
@@ -99,6 +100,13 @@ const (
 )
 
 func Parse(b []byte) (message util.Message, err error) {
+	// A malformed frame must never take the process down: report it as an error.
+	defer func() {
+		if r := recover(); r != nil {
+			message = nil
+			err = fmt.Errorf("malformed OpenFlow message: %v", r)
+		}
+	}()
 	switch b[1] {
 	case Type_Hello:
 		message = new(common.Hello)
@@ -150,16 +158,19 @@ func Parse(b []byte) (message util.Message, err error) {
 		message = new(PortStatus)
 		err = message.UnmarshalBinary(b)
 	case Type_PacketOut:
-		break
+		message = NewPacketOut()
+		err = message.UnmarshalBinary(b)
 	case Type_FlowMod:
 		message = NewFlowMod()
 		err = message.UnmarshalBinary(b)
 	case Type_GroupMod:
-		break
+		message = NewGroupMod()
+		err = message.UnmarshalBinary(b)
 	case Type_PortMod:
-		break
+		message = NewPortMod(0)
+		err = message.UnmarshalBinary(b)
 	case Type_TableMod:
-		break
+		err = errors.New("Table-mod messages are not supported by the parser.")
 	case Type_BarrierRequest:
 		message = new(common.Header)
 		err = message.UnmarshalBinary(b)
@@ -167,9 +178,9 @@ func Parse(b []byte) (message util.Message, err error) {
 		message = new(common.Header)
 		err = message.UnmarshalBinary(b)
 	case Type_QueueGetConfigRequest:
-		break
+		err = errors.New("Queue-get-config messages are not supported by the parser.")
 	case Type_QueueGetConfigReply:
-		break
+		err = errors.New("Queue-get-config messages are not supported by the parser.")
 	case Type_MultiPartRequest:
 		message = new(MultipartRequest)
 		err = message.UnmarshalBinary(b)
